@@ -22,10 +22,37 @@ SCOPES = ["own swarm cluster shared"] * 5 + ["own shared", "own swarm shared", "
 STATE_NAMES = ["install", "customize", "on_customize", "connect", "gui", "extra"]
 
 
+def gen_directed_handover(rng):
+    """a tiny directed family: vm1 with install -> customize (marked for removal) [-> one more state]; the only test that
+    needs the removable state belongs to ONE worker (and mostly needs a second vm too, so that its worker can arrive at
+    the producer from below, through pick_parent, as well as from above); every worker carries the setup"""
+    workers = rng.choice(WORKER_SETS[1:5])
+    chain = [{"name": "install", "parent": None, "level": "images"},
+             {"name": "customize", "parent": "install", "level": "images", "unset": rng.choice(["fi", "fi", "fa"])}]
+    if rng.random() < 0.3:
+        chain.append({"name": "on_customize", "parent": "customize", "level": rng.choice(["images", "vms"])})
+    states = {"vm1": chain}
+    owner = rng.randrange(len(workers))
+    gets = {"vm1": chain[-1]["name"]}
+    if rng.random() < 0.7:
+        chain2 = [{"name": "install", "parent": None, "level": "images"}]
+        if rng.random() < 0.5:
+            chain2.append({"name": "customize", "parent": "install", "level": "images"})
+        states["vm2"] = chain2
+        gets["vm2"] = chain2[-1]["name"]
+    leaves = [{"name": "t1", "gets": gets, "only_workers": [owner]}]
+    if rng.random() < 0.5:
+        leaves.append({"name": "t2", "gets": {"vm1": "install"}, "only_workers": [rng.randrange(len(workers))]})
+    return {"workers": workers, "vms": {vm: {} for vm in states}, "states": states, "leaves": leaves,
+            "node_params": {"test_timeout": rng.choice(["100", "10"]), "pool_scope": "own swarm cluster shared"}}
+
+
 def gen_spec(rng, flavour=None):
-    """flavour: None | 'retry' | 'removable' | 'contention' biases the parameters"""
-    workers = rng.choice(WORKER_SETS if flavour != "contention" else WORKER_SETS[1:7])
-    nvms = rng.choice([1, 1, 2, 2, 3])
+    """flavour: None | 'retry' | 'removable' | 'contention' | 'handover' | 'directed' biases the parameters"""
+    if flavour == "directed":
+        return gen_directed_handover(rng)
+    workers = rng.choice(WORKER_SETS if flavour not in ("contention", "handover") else WORKER_SETS[1:7])
+    nvms = rng.choice([1, 1, 2, 2, 3]) if flavour != "handover" else 1
     vms = {f"vm{k + 1}": {} for k in range(nvms)}
     states = {}
     for vm in vms:
@@ -34,7 +61,7 @@ def gen_spec(rng, flavour=None):
         for d in range(depth):
             parent = None if d == 0 else rng.choice(chain[max(0, d - 2):])["name"]
             st = {"name": STATE_NAMES[d], "parent": parent, "level": "images" if d == 0 or rng.random() < 0.6 else "vms"}
-            if d > 0 and rng.random() < (0.5 if flavour == "removable" else 0.12):
+            if d > 0 and rng.random() < (0.5 if flavour == "removable" else 0.8 if flavour == "handover" else 0.12):
                 st["unset"] = rng.choice(["fi", "fi", "fa", "ri"])
                 if rng.random() < 0.4:
                     st["unset_spelling"] = "untyped"
@@ -49,6 +76,15 @@ def gen_spec(rng, flavour=None):
         if rng.random() < 0.2:
             leaf["params"] = {"max_tries": rng.choice(["2", "3"]), "rerun_status": rng.choice(["fail", "fail error", "error"])}
         leaves.append(leaf)
+    if flavour == "handover" and len(workers) > 1:
+        # one worker produces a removable state that only another worker's test needs
+        for leaf in leaves:
+            leaf["only_workers"] = [rng.randrange(len(workers))]
+    elif len(workers) > 1 and rng.random() < 0.3:
+        # tests excluded for some workers (restricted workers): a worker may be done with a setup others still need
+        for leaf in leaves:
+            if rng.random() < 0.5:
+                leaf["only_workers"] = sorted(rng.sample(range(len(workers)), rng.randint(1, len(workers) - 1)))
     node_params = {"test_timeout": rng.choice(["100", "100", "10", "250"]), "pool_scope": rng.choice(SCOPES)}
     if flavour == "retry" or rng.random() < 0.25:
         node_params["max_tries"] = rng.choice(["2", "3", "4"])
